@@ -25,7 +25,7 @@ Fixpoint ms_subb {A} (leb:A->A->bool) (l1 l2:list A) : bool :=
   end.
 
 Definition key_eqb (a b:vresult) : bool :=
-  term_eqb (rfocus a) (rfocus b) && opt_term_eqb (rvalue a) (rvalue b) && N.eqb (rcomp a) (rcomp b)
+  term_eqb (rfocus a) (rfocus b) && opt_term_eqb (rvalue a) (rvalue b) && opt_term_eqb (rpath a) (rpath b) && N.eqb (rcomp a) (rcomp b)
   && term_eqb (rsrc a) (rsrc b) && term_eqb (rsev a) (rsev b).
 
 (* fuel bounds the sh:detail nesting depth (never more than max_validation_depth) *)
@@ -59,14 +59,14 @@ Definition cres_abort_ok (observed full:res cres) : bool :=
   | _, _ => false
   end.
 
-Definition check_validate (o:opts) (sg g:graph) (E:env) (observed:res cres) : bool :=
+Definition check_validate (W:world) (o:opts) (sg g:graph) (E:env) (observed:res cres) : bool :=
   if abort o then
-    cres_abort_ok observed (validate_impl {| abort := false; allow_infos := allow_infos o; allow_warnings := allow_warnings o;
+    cres_abort_ok observed (validate_impl W {| abort := false; allow_infos := allow_infos o; allow_warnings := allow_warnings o;
                                         max_depth := max_depth o; focus_filter := focus_filter o |} sg g E)
-  else cres_eqb (validate_impl o sg g E) observed.
+  else cres_eqb (validate_impl W o sg g E) observed.
 
-Definition check_validate_sel (use:list term) (o:opts) (sg g:graph) (E:env) (observed:res cres) : bool :=
-  cres_eqb (validate_sel_impl o sg g E use) observed.
+Definition check_validate_sel (use:list term) (W:world) (o:opts) (sg g:graph) (E:env) (observed:res cres) : bool :=
+  cres_eqb (validate_sel_impl W o sg g E use) observed.
 
 Definition check_focus (sg g:graph) (s:shape) (observed:list term) : bool :=
   tset_eqb (focus_nodes sg g s) observed.
